@@ -292,7 +292,7 @@ pub fn run_c11(ctx: &mut Ctx) {
         rep.note("hook absent: buffer bound judged on the body finally handed to the application");
     }
     for m in [-1i64, 0, 1, 15, 16, 2, 3] {
-        for _ in 0..(budget / 200).max(6) {
+        for _ in 0..(if level == 0 { 1 } else { (budget / 200).max(6) }) {
             run_sequence(rep, &mut r, level, Some(m));
         }
     }
@@ -300,7 +300,7 @@ pub fn run_c11(ctx: &mut Ctx) {
         run_sequence(rep, &mut r, level, None);
     }
     // directed: far jumps against an existing buffer, and a slow crawl that stays inside the reserve
-    directed_jumps(rep);
+    directed_jumps(rep, if level == 0 { &[6] } else { &[0, 1, 2, 3, 4, 5, 6] });
     rep.floor("entry_point_calls", 10);
     rep.floor("handling_errors", 1);
     if cfg!(has_block_hook) {
@@ -310,8 +310,8 @@ pub fn run_c11(ctx: &mut Ctx) {
     rep.sample(|| format!("hex of a malformed block option used: {}", hex(&[0xff, 0xff, 0xff, 0x0f])));
 }
 
-fn directed_jumps(rep: &mut Report) {
-    for szx in 0..7u8 {
+fn directed_jumps(rep: &mut Report, szxs: &[u8]) {
+    for &szx in szxs {
         let size = szx_size(szx);
         let mut server = Server::new(1280, LONG);
         let mut app = |_q: &CoapRequest<CEp>| AppReply { code: 0x44, options: vec![], payload: vec![] };
